@@ -15,3 +15,9 @@ import (
 func (t *Miner) PackBlockForVerif(ctx xctx.XContext, height int64, now time.Time, consData []byte) (*lpb.InternalBlock, error) {
 	return t.packBlock(ctx, height, now, consData)
 }
+
+// MiningForVerif exposes one mining round (walk to the ledger tip, consensus pre-processing, packBlock,
+// confirmBlockForMiner) to the verification harness.
+func (t *Miner) MiningForVerif(ctx xctx.XContext) error {
+	return t.mining(ctx)
+}
